@@ -11,15 +11,19 @@ atree   := ["n", name, sender, recipient, ro, [[id, iter, rep]…], [atree…]]
 
   {"op":"expand","grammar":G,"start":s,"path":[…],"budget":b,"tape":[…],"fuel":n}
         → {"tree": tree|null, "rest": n}
-  {"op":"insert","grammar":G,"rep":fnode,"path":[…],"start_rep":k,"nr":k,"tape":[…],"fuel":n}
-        → {"kids": [tree…]|null, "rest": n}
+  {"op":"insert","grammar":G,"rep":fnode,"path":[…],"start_rep":k,"nr":k,"tape":[…],"fuel":n,
+   "tree":atree (the parent),"index":i (of the ending tree),"id":s,"iter":k}
+        → {"tree": tree|null (the copy of the parent, structure only), "rest": n}
   {"op":"replace","tree":atree,"repl":[[path, atree]…],"cur":[…],"fuel":n} → {"tree": atree|null}
   {"op":"delete","tree":atree,"id":s,"iter":k,"nr":k} → {"tree": atree}
   {"op":"split_end"|"prefix","tree":atree,"path":[…]} → {"tree": atree}
   {"op":"collapse","tree":tree} → {"trees":[tree…]}
+  {"op":"valid","grammar":G(IR json of Driver/IRJson),"oracle":O,"tree":tree} → {"valid":bool,"bad":path|null}
+        (the normalising checker `validFast`, proved ↔ `Valid` in Proofs/IRFast.lean)
 -/
 import Driver.IRJson
 import Model.Fuzz
+import Model.IRFast
 open Lean FV FV.Drv
 
 namespace FV.Drv
@@ -137,12 +141,17 @@ def handle (j : Json) : Except String Json := do
     let nr ← (← j.getObjVal? "nr").getNat?
     let tape ← (← (← j.getObjVal? "tape").getArr?).toList.mapM choiceOf
     let fuel ← (← j.getObjVal? "fuel").getNat?
+    let parent ← atreeOf (← j.getObjVal? "tree")
+    let idx ← (← j.getObjVal? "index").getNat?
+    let id ← j.getObjValAs? String "id"
+    let iter ← (← j.getObjVal? "iter").getNat?
     match rep with
     | .rep _ _ d n mn _ =>
       match insertFuzz G fuel n mn d path startRep nr tape with
       | some (f, rest) =>
-        return Json.mkObj [("kids", Json.arr (f.map jTree).toArray), ("rest", Json.num (JsonNumber.fromNat rest.length))]
-      | none => return Json.mkObj [("kids", Json.null), ("rest", Json.num 0)]
+        let t' := insertKids id iter idx (ATree.ofTreeL f) parent
+        return Json.mkObj [("tree", jTree t'.erase), ("rest", Json.num (JsonNumber.fromNat rest.length))]
+      | none => return Json.mkObj [("tree", Json.null), ("rest", Json.num 0)]
     | _ => throw "insert: not a repetition node"
   | "replace" =>
     let t ← atreeOf (← j.getObjVal? "tree")
@@ -168,6 +177,14 @@ def handle (j : Json) : Except String Json := do
     let t ← atreeOf (← j.getObjVal? "tree")
     let p ← natArr (← j.getObjVal? "path")
     return Json.mkObj [("tree", jATree (prefixOf t p))]
+  | "valid" =>
+    let G ← grammarOf (← j.getObjVal? "grammar")
+    let R ← oracleOf (← j.getObjVal? "oracle")
+    let t ← treeOf (← j.getObjVal? "tree")
+    let bad := match firstBadFast G R t with
+      | none => Json.null
+      | some p => jNats p
+    return Json.mkObj [("valid", Json.bool (validFast G R t)), ("bad", bad)]
   | "collapse" =>
     let t ← treeOf (← j.getObjVal? "tree")
     return Json.mkObj [("trees", Json.arr ((collapse t).map jTree).toArray)]
